@@ -37,14 +37,17 @@ Definition cfg_ok (c : cfg) : Prop :=
 
 Definition keys_nodup {V} (m : list (string * V)) : Prop := NoDup (map fst m).
 
-Record Inv (st : state) : Prop := mkInv {
+(* ask side + configuration + version; bid side *)
+Record InvA (st : state) : Prop := mkInvA {
   inv_cfg : exists c, st_cfg st = Some c /\ cfg_ok c;
   inv_ver : exists d v ver, st_ver st = Some (d, v) /\ version_parse v = Some ver /\ req_lt_0_16_2 ver = false;
   inv_asks : forall c k a, st_cfg st = Some c -> lookup k (st_asks st) = Some a -> ask_ok c k a;
+  inv_nd_asks : keys_nodup (st_asks st) }.
+Record InvB (st : state) : Prop := mkInvB {
   inv_bids : forall c k s, st_cfg st = Some c -> lookup k (st_bids st) = Some s ->
                            exists b, s = SlotV3 b /\ bid_ok c k b;
-  inv_nd_asks : keys_nodup (st_asks st);
   inv_nd_bids : keys_nodup (st_bids st) }.
+Definition Inv (st : state) : Prop := InvA st /\ InvB st.
 
 (* ---------------------------------------------------------------- map lemmas *)
 Section MapFacts.
